@@ -103,18 +103,32 @@ theorem walk34_append (v : C34.View) (a b : List Tok) :
     | none => rfl
     | some v' => exact ih v'
 
-theorem walk34_pollNew (v : C34.View) (fs : List Fut) : C34.walk v (pollNew fs) = some v := by
+theorem walk34_pollNew (v : C34.View) (fs : List Fut) (hin : ∀ f ∈ fs, v.inProgress f.height = true) :
+    C34.walk v (pollNew fs) = some v := by
   unfold pollNew
   rw [walk34_append]
-  have h1 : ∀ (l : List Fut) (v : C34.View), C34.walk v (l.map (fun f => Tok.started f.height f.width f.shares)) = some v := by
+  have h1 : ∀ (l : List Fut), (∀ f ∈ l, v.inProgress f.height = true) →
+      C34.walk v (l.map (fun f => Tok.started f.height f.width f.shares)) = some v := by
     intro l; induction l with
-    | nil => intro v; rfl
-    | cons f l ih => intro v; simp [C34.walk, C34.onTok, ih]
-  have h2 : ∀ (l : List Fut) (v : C34.View), C34.walk v (l.map (fun f => Tok.req f.height f.shares)) = some v := by
+    | nil => intro _; rfl
+    | cons f l ih =>
+      intro hl
+      simp only [List.map_cons, C34.walk, C34.onTok, C34.partOf, hl f (by simp), if_true]
+      exact ih (fun g hg => hl g (by simp [hg]))
+  have h2 : ∀ (l : List Fut), (∀ f ∈ l, v.inProgress f.height = true) →
+      C34.walk v (l.map (fun f => Tok.req f.height f.shares)) = some v := by
     intro l; induction l with
-    | nil => intro v; rfl
-    | cons f l ih => intro v; simp [C34.walk, C34.onTok, ih]
-  simp [h1, h2]
+    | nil => intro _; rfl
+    | cons f l ih =>
+      intro hl
+      simp only [List.map_cons, C34.walk, C34.onTok, C34.partOf, hl f (by simp), if_true]
+      exact ih (fun g hg => hl g (by simp [hg]))
+  simp [h1 fs hin, h2 fs hin]
+
+/-- the C34 monitor accepts `toks` from the view of `s` and ends in a view that agrees with the view of `s'` on
+    what is in progress (after a window cut-off the two differ in `timedOut` only) -/
+def WalkTo (s : State) (toks : List Tok) (s' : State) : Prop :=
+  ∃ v', C34.walk (view34 s) toks = some v' ∧ v'.inProgress = (view34 s').inProgress
 
 /-- the constants the properties quote -/
 def CfgOK (c : Cfg) : Prop := c.prunerThreshold = 512 ∧ c.maxSamples = 16
@@ -454,7 +468,7 @@ def NextPost (s : State) (r : Option Fut × State × List Tok) : Prop :=
   Frame s r.2.1 ∧ Inv r.2.1 ∧ Grow s r.2.1 ∧ W33 s r.2.2 r.2.1 ∧
   match r.1 with
   | some f => C34.walk (view34 s) r.2.2 = some (view34 r.2.1) ∧ r.2.1.w.futs = s.w.futs ++ [f] ∧ NewFut r.2.1 f
-  | none => (C34.walk (view34 s) r.2.2).isSome = true ∧ r.2.1.w.futs = s.w.futs
+  | none => WalkTo s r.2.2 r.2.1 ∧ r.2.1.w.futs = s.w.futs
 
 theorem scheduleNext_good {s : State} (hi : Inv s) (hs : Sched s) (draws : List (Nat × Nat)) :
     Good (scheduleNext s draws) (NextPost s) := by
@@ -465,7 +479,7 @@ theorem scheduleNext_good {s : State} (hi : Inv s) (hs : Sched s) (draws : List 
   have hg1 : Grow s s1 := Grow.of_same hst1 hfu1
   cases top with
   | none =>
-    exact Good.pure ⟨hf1, hr, hg1, hw33, by dsimp only at hw1 ⊢; rw [hw1]; rfl, hfu1⟩
+    exact Good.pure ⟨hf1, hr, hg1, hw33, ⟨_, hw1, rfl⟩, hfu1⟩
   | some h =>
     dsimp only at hr hw1 hfu1 hst1 ⊢
     have hp : Picked s1 h := hr
@@ -480,7 +494,7 @@ theorem scheduleNext_good {s : State} (hi : Inv s) (hs : Sched s) (draws : List 
       rintro _ rfl
       refine Good.bind (Good.liftR ht (P := fun a => t = a) rfl) ?_
       rintro _ rfl
-      refine Good.pure ⟨Frame.trans hf1 ⟨rfl, rfl, rfl, rfl⟩, ?_, Grow.trans hg1 (Grow.of_same rfl rfl), ?_, by dsimp only; rw [hw1]; rfl, hfu1⟩
+      refine Good.pure ⟨Frame.trans hf1 ⟨rfl, rfl, rfl, rfl⟩, ?_, Grow.trans hg1 (Grow.of_same rfl rfl), ?_, ⟨_, hw1, rfl⟩, hfu1⟩
       rotate_left
       · exact hw33.to_same rfl rfl ⟨rfl, rfl, rfl, rfl⟩
       refine ⟨hp.inv.stored, hp.inv.sampled, hqi, hti, hp.inv.ongoing, hp.inv.wbp, hp.inv.cand, ?_, hp.inv.ongoing_eq,
@@ -589,7 +603,7 @@ theorem scheduleNext_good {s : State} (hi : Inv s) (hs : Sched s) (draws : List 
         case w34 =>
           dsimp only
           rw [walk34_append, hw1]
-          simp only [Option.bind, C34.walk, C34.onTok, startOK_of_picked hp hfresh hs1.conn hs1.alive hs1.thr.1, if_true]
+          simp only [Option.bind, C34.walk, C34.onTok, C34.start, startOK_of_picked hp hfresh hs1.conn hs1.alive hs1.thr.1, if_true]
           congr 1
           simp only [view34, List.length_append, List.length_singleton]
           congr 1
@@ -609,7 +623,7 @@ theorem scheduleNext_good {s : State} (hi : Inv s) (hs : Sched s) (draws : List 
 /-! ### the `while` loop and the following `select!` -/
 
 def LoopPost (s : State) (r : List Fut × State × List Tok) : Prop :=
-  Frame s r.2.1 ∧ Inv r.2.1 ∧ (C34.walk (view34 s) r.2.2).isSome = true ∧ r.2.1.w.futs = s.w.futs ++ r.1 ∧
+  Frame s r.2.1 ∧ Inv r.2.1 ∧ WalkTo s r.2.2 r.2.1 ∧ r.2.1.w.futs = s.w.futs ++ r.1 ∧
   Grow s r.2.1 ∧ W33 s r.2.2 r.2.1 ∧ ∀ f ∈ r.1, NewFut r.2.1 f
 
 theorem scheduleLoop_good : ∀ (fuel : Nat) (s : State) (rnd : List (List (Nat × Nat))), Inv s → Sched s →
@@ -630,9 +644,8 @@ theorem scheduleLoop_good : ∀ (fuel : Nat) (s : State) (rnd : List (List (Nat 
       refine Good.bind (scheduleLoop_good fuel s1 rnd.tail hi1 (hs.frame hf1) hlt1) ?_
       rintro ⟨fs, s2, t2⟩ ⟨hf2, hi2, hw2, hfu2, hg2, hw33', hnf⟩
       refine Good.pure ⟨Frame.trans hf1 hf2, hi2, ?_, ?_, Grow.trans hg1 hg2, W33.trans hw33 hw33', ?_⟩
-      · dsimp only at hw2 ⊢
-        rw [walk34_append, hr.1]
-        exact hw2
+      · obtain ⟨v', hv', hip⟩ := hw2
+        exact ⟨v', by dsimp only at hv' ⊢; rw [walk34_append, hr.1]; exact hv', hip⟩
       · dsimp only at hfu2 ⊢
         rw [hfu2, hr.2.1]; simp
       · intro g hg
@@ -647,13 +660,16 @@ theorem scheduleAll_good {s : State} (hi : Inv s) (hs : Sched s) (rnd : List (Li
     Good (scheduleAll s rnd) (AllPost s) := by
   unfold scheduleAll
   refine Good.bind (scheduleLoop_good _ s rnd hi hs (by omega)) ?_
-  rintro ⟨fs, s1, t1⟩ ⟨hf1, hi1, hw1, _, _, hw33, hnf⟩
+  rintro ⟨fs, s1, t1⟩ ⟨hf1, hi1, ⟨v', hw1, hip⟩, hfu, _, hw33, hnf⟩
   refine Good.pure ⟨hf1, hi1, ?_, W33.trans hw33 (W33_pollNew hi1.nodup fs hnf)⟩
-  dsimp only at hw1 ⊢
-  rw [walk34_append]
-  cases hw : C34.walk (view34 s) t1 with
-  | none => rw [hw] at hw1; simp at hw1
-  | some v => simp [Option.bind, walk34_pollNew]
+  dsimp only at hw1 hip hfu ⊢
+  rw [walk34_append, hw1]
+  have hin : ∀ f ∈ fs, v'.inProgress f.height = true := by
+    intro f hf
+    rw [hip]
+    simp only [view34, contains_iff_mem]
+    exact (hi1.ongoing_eq _).2 ⟨f, by rw [hfu]; exact List.mem_append_right _ hf, rfl⟩
+  simp [Option.bind, walk34_pollNew v' fs hin]
 
 /-! ### the store (environment) -/
 
@@ -1376,6 +1392,63 @@ theorem run_ok : ∀ (evs : List (Ev × List (List (Nat × Nat)))) (s : State), 
     have h2 := run_ok rest (step s ev rnd).1 h1.1 (fun e he => hwf e (by simp [he]))
     refine ⟨by simp [accepts34, h1.2.1, h2.1], by simp [accepts33, h1.2.2, h2.2.1], ?_⟩
     simp only [run]
+    exact h2.2.2
+
+/-! ### answers that are neither a sample nor a timeout -/
+
+/-- such an answer to a pending request stops the worker (`FatalDaserError`), marks nothing, and leaves the store
+    alone; to anything else it is a no-op.  Both monitors accept. -/
+theorem onBadAnswer_ok {s : State} (hs : StateOK s) (h : Nat) (p : Share) :
+    StateOK (onBadAnswer s h p).1 ∧
+    C34.specBadAnswer (view34 s) (onBadAnswer s h p).2 = true ∧
+    C33.specBadAnswer (view33 s) (onBadAnswer s h p).2 = true ∧
+    (onBadAnswer s h p = (s, []) ∨ onBadAnswer s h p = (die s, [Tok.fatal])) := by
+  unfold onBadAnswer
+  have hnil : StateOK s ∧ C34.specBadAnswer (view34 s) [] = true ∧ C33.specBadAnswer (view33 s) [] = true ∧
+      ((s, ([] : List Tok)) = (s, []) ∨ (s, ([] : List Tok)) = (die s, [Tok.fatal])) :=
+    ⟨hs, rfl, rfl, Or.inl rfl⟩
+  split
+  · exact hnil
+  · split
+    · exact hnil
+    · split
+      · exact ⟨⟨inv_die hs.inv, hs.thr⟩, by simp [C34.specBadAnswer, C34.walk, C34.onTok],
+          by simp [C33.specBadAnswer, C33.walk, C33.onTok], Or.inr rfl⟩
+      · exact hnil
+
+/-- the monitors' verdicts along a history of stimuli of both kinds -/
+def acceptsX34 (s : State) : List Stim → Bool
+  | [] => true
+  | st :: rest =>
+    (match st with
+     | .ev e rnd => C34.specOK (view34 s) e (step s e rnd).2
+     | .badAnswer h p => C34.specBadAnswer (view34 s) (onBadAnswer s h p).2) && acceptsX34 (stepX s st).1 rest
+
+def acceptsX33 (s : State) : List Stim → Bool
+  | [] => true
+  | st :: rest =>
+    (match st with
+     | .ev e rnd => C33.specOK (view33 s) e (step s e rnd).2
+     | .badAnswer h p => C33.specBadAnswer (view33 s) (onBadAnswer s h p).2) && acceptsX33 (stepX s st).1 rest
+
+def StimWF : Stim → Prop
+  | .ev e _ => EvWF e
+  | .badAnswer _ _ => True
+
+theorem runX_ok : ∀ (sts : List Stim) (s : State), StateOK s → (∀ st ∈ sts, StimWF st) →
+    acceptsX34 s sts = true ∧ acceptsX33 s sts = true ∧ StateOK (runX s sts).1
+  | [], s, hs, _ => ⟨rfl, rfl, hs⟩
+  | .ev e rnd :: rest, s, hs, hwf => by
+    have h1 := step_ok hs e (hwf (.ev e rnd) (by simp)) rnd
+    have h2 := runX_ok rest (step s e rnd).1 h1.1 (fun st hst => hwf st (by simp [hst]))
+    refine ⟨by simp [acceptsX34, stepX, h1.2.1, h2.1], by simp [acceptsX33, stepX, h1.2.2, h2.2.1], ?_⟩
+    simp only [runX, stepX]
+    exact h2.2.2
+  | .badAnswer h p :: rest, s, hs, hwf => by
+    have h1 := onBadAnswer_ok hs h p
+    have h2 := runX_ok rest (onBadAnswer s h p).1 h1.1 (fun st hst => hwf st (by simp [hst]))
+    refine ⟨by simp [acceptsX34, stepX, h1.2.1, h2.1], by simp [acceptsX33, stepX, h1.2.2.1, h2.2.1], ?_⟩
+    simp only [runX, stepX]
     exact h2.2.2
 
 attribute [local simp] ok_bind err_bind map_ok map_err pure_eq throw_eq
